@@ -19,12 +19,9 @@ const (
 // For DNSSEC-signed responses, it also considers RRSIG expiration times.
 func CalculateCacheTTL(msg *dns.Msg, respType ResponseType) time.Duration {
 	// Only cache successful responses and negative responses (NXDOMAIN/NODATA)
-	isNegative := false
 	switch respType {
-	case TypeSuccess:
+	case TypeSuccess, TypeNXDomain, TypeNoRecords:
 		// Continue with TTL calculation
-	case TypeNXDomain, TypeNoRecords:
-		isNegative = true
 	case TypeServerFailure:
 		// SERVFAIL responses should be cached for a reasonable time to avoid
 		// hammering broken servers, but not too long in case it's temporary
@@ -60,16 +57,17 @@ func CalculateCacheTTL(msg *dns.Msg, respType ResponseType) time.Duration {
 	// Check Authority section. For negative responses, RFC 2308
 	// caps the cache TTL at min(SOA header TTL, SOA.Minttl) — a
 	// response with SOA header TTL 86400 and Minttl 300 must not
-	// be cached for a day.
+	// be cached for a day. An SOA in the authority section marks a
+	// negative answer whatever the response was classed as: a NODATA
+	// or NXDOMAIN reached through an alias carries the alias in its
+	// answer section and counts as a success.
 	for _, rr := range msg.Ns {
 		if ttl := getTTL(rr); ttl < minTTL {
 			minTTL = ttl
 		}
-		if isNegative {
-			if soa, ok := rr.(*dns.SOA); ok {
-				if ttl := time.Duration(soa.Minttl) * time.Second; ttl < minTTL {
-					minTTL = ttl
-				}
+		if soa, ok := rr.(*dns.SOA); ok {
+			if ttl := time.Duration(soa.Minttl) * time.Second; ttl < minTTL {
+				minTTL = ttl
 			}
 		}
 		// Check RRSIG expiration
